@@ -40,7 +40,7 @@ func reachableAvoiding(from, to, avoid *ssa.BasicBlock) bool {
 }
 
 func C09(ctx *core.Ctx, r *core.Report) {
-	r.Explanation = "Shape of the choice handling, decided on all paths: in upsert mode the editor asks the target for its active case and clears it before the write (leaf) or before the create (container/list), on the target selection and with the node being written; clearing dispatches leaf-like nodes to ClearField and everything else to Find+Delete through the case iterator (which descends nested choices); a read descends into a choice only through the case returned by Node.Choose and never yields a choice or another case's nodes; every Choose implementation iterates the cases in a deterministic order. Not decided: only the direct parent case is examined (a leaf under case → choice → case clears only the inner choice), and everything about edit histories."
+	r.Explanation = "Shape of the choice handling, decided on all paths: in upsert mode the editor asks the target for its active case and clears it before the write (leaf) or before the create (container/list), on the target selection and with the node being written; clearing dispatches leaf-like nodes to ClearField and everything else to Find+Delete through the case iterator (which descends nested choices); a read descends into a choice only through the case returned by Node.Choose and never yields a choice or another case's nodes; every Choose implementation iterates the cases in a deterministic order. The walk over the old case's members returns early only with a value known to be a failure; every Choose implementation decides on presence, never on emptiness of the stored value. Not decided: only the direct parent case is examined (a leaf under case → choice → case clears only the inner choice), and everything about edit histories."
 	clear := ctx.Method("node", "editor", "clearOnDifferentChoiceCase")
 	clearCase := ctx.Method("node", "editor", "clearChoiceCase")
 	leaf := ctx.Method("node", "editor", "leaf")
